@@ -18,6 +18,6 @@ CONSTANTS
   Quotes <- QuotesC
 SPECIFICATION LiveSpec
 VIEW View
-INVARIANTS Inv
+INVARIANTS Inv Calm StatedImpliesExact
 PROPERTIES Release
 CHECK_DEADLOCK FALSE
